@@ -341,6 +341,94 @@ pub fn main_trace(args: &[String]) {
     tw.finish();
 }
 
+/// Engine "hugepos" (C11): POSITIONS beyond 2^32 at production constants.  A zero-filled file of 4.3 GB compresses to a
+/// few dozen bytes per 4 MiB block: the stream is assembled from the real writer's compressed zero block repeated
+/// 1 030 times and a matching sizes footer (what the writer emits for such a file, without compressing 4.3 GB here),
+/// alone and under the encryption layer.  Seeks from the start, the end and the current position across 2^32, then small
+/// reads: the ByteStream clauses (returned position, bytes, end of stream) are evaluated here - TLC's integers are 32-bit.
+/// args: out.json
+pub fn main_hugepos(args: &[String]) {
+    quiet_panics();
+    let consts: std::collections::HashMap<&str, u64> = mla::verif::constants().iter().copied().collect();
+    let bl = consts["block"] as usize;
+    let nblocks: u64 = (1u64 << 32) / bl as u64 + 6;
+    let tail: u64 = 1234;                                  // a short last block
+    let total: u64 = (nblocks - 1) * bl as u64 + tail;
+    let comp = Stack { enc: false, comp: true };
+    let one = stacks::write_stream(&vec![0u8; bl], comp, 5, &[], false);
+    let last = stacks::write_stream(&vec![0u8; tail as usize], comp, 5, &[], false);
+    // [block][u64 n=1][u32 size][u32 last][u32 footer len]
+    let blk = |s: &[u8]| s[..s.len() - 20].to_vec();
+    let (b_full, b_last) = (blk(&one), blk(&last));
+    let mut stream = vec![];
+    for _ in 0..nblocks - 1 {
+        stream.extend(&b_full);
+    }
+    stream.extend(&b_last);
+    let mut foot = vec![];
+    foot.extend(nblocks.to_le_bytes());
+    for _ in 0..nblocks - 1 {
+        foot.extend((b_full.len() as u32).to_le_bytes());
+    }
+    foot.extend((b_last.len() as u32).to_le_bytes());
+    foot.extend((tail as u32).to_le_bytes());
+    stream.extend(&foot);
+    stream.extend((foot.len() as u32).to_le_bytes());
+    let mut viol: Vec<Value> = vec![];
+    let mut nops = 0u64;
+    for (sname, stack, bytes) in [("comp", comp, stream.clone()),
+                                  ("comp+enc", Stack { enc: true, comp: true }, stacks::write_stream(&stream, Stack { enc: true, comp: false }, 5, &[], false))] {
+        let r = guarded(|| -> Result<(), String> {
+            let mut rd = stacks::reader_over(stacks::cursor(bytes.clone()), 0, stack).map_err(|e| format!("open: {e:?}"))?;
+            let mut pos: u64 = 0;
+            let p32 = 1u64 << 32;
+            let mut read = |rd: &mut dyn Read, pos: &mut u64, n: usize| -> Result<(), String> {
+                let mut buf = vec![0xAAu8; n];
+                let k = rd.read(&mut buf).map_err(|e| format!("read at {pos}: {e}"))?;
+                let left = total - *pos;
+                if k as u64 > left || (k == 0 && n > 0 && left > 0) || buf[..k].iter().any(|b| *b != 0) {
+                    return Err(format!("read({n}) at {pos}: {k} bytes, {left} left, zero bytes: {}", buf[..k].iter().all(|b| *b == 0)));
+                }
+                *pos += k as u64;
+                Ok(())
+            };
+            let seeks: Vec<(&str, SeekFrom, Box<dyn Fn(u64) -> u64>)> = vec![
+                ("start 11", SeekFrom::Start(11), Box::new(|_| 11)),
+                ("cur 2^32+100", SeekFrom::Current((p32 + 100) as i64), Box::new(move |p| p + p32 + 100)),
+                ("cur -2^32", SeekFrom::Current(-(p32 as i64)), Box::new(move |p| p - p32)),
+                ("start 2^32-1", SeekFrom::Start(p32 - 1), Box::new(move |_| p32 - 1)),
+                ("cur +1", SeekFrom::Current(1), Box::new(|p| p + 1)),
+                ("start 2^32+bl+7", SeekFrom::Start(p32 + bl as u64 + 7), Box::new(move |_| p32 + bl as u64 + 7)),
+                ("end -(2^32+100)", SeekFrom::End(-((p32 + 100) as i64)), Box::new(move |_| total - p32 - 100)),
+                ("cur 2^32", SeekFrom::Current(p32 as i64), Box::new(move |p| p + p32)),
+                ("end -5", SeekFrom::End(-5), Box::new(move |_| total - 5)),
+                ("start 5", SeekFrom::Start(5), Box::new(|_| 5)),
+                ("cur 2^32+12345", SeekFrom::Current((p32 + 12345) as i64), Box::new(move |p| p + p32 + 12345)),
+                ("end 0", SeekFrom::End(0), Box::new(move |_| total)),
+            ];
+            for (label, sf, want) in &seeks {
+                // a small read first, so that the reader is in the middle of a block when the seek comes
+                read(&mut rd, &mut pos, 11)?;
+                let w = want(pos);
+                let got = rd.seek(*sf).map_err(|e| format!("seek {label} from {pos}: {e}"))?;
+                nops += 2;
+                if got != w {
+                    return Err(format!("seek {label} from {pos}: returned {got}, the stream position is {w}"));
+                }
+                pos = w;
+                read(&mut rd, &mut pos, 10)?;
+            }
+            Ok(())
+        });
+        match r {
+            Ok(Ok(())) => {}
+            Ok(Err(e)) => viol.push(json!({"kind": "bytestream-clause", "stack": sname, "detail": e, "L": total.to_string()})),
+            Err(p) => viol.push(json!({"kind": "panic", "stack": sname, "detail": p, "L": total.to_string()})),
+        }
+    }
+    write_json(&args[0], &json!({"ops": nops, "violations": viol, "stream_length": total.to_string(), "archive_bytes": stream.len()}));
+}
+
 /// Replays the edges of the EncFailSafe model into the real EncryptionLayerFailSafeReader (C04, C02):
 /// bytes delivered must be the plaintext at the running position (a flipped data byte excepted, in the mode that
 /// ignores tags), never beyond what the model allows; the hidden state is compared after every read.
